@@ -273,14 +273,15 @@ func (s *SencBox) matchesSaiz(saiz *SaizBox, perSampleIVSize byte) bool {
 		return true // Nothing to compare with
 	}
 	for i := range s.SubSamples {
-		size := int(saiz.DefaultSampleInfoSize)
+		size := saiz.DefaultSampleInfoSize
 		if size == 0 {
 			if i >= len(saiz.SampleInfo) {
 				return true
 			}
-			size = int(saiz.SampleInfo[i])
+			size = saiz.SampleInfo[i]
 		}
-		if size != int(perSampleIVSize)+2+6*len(s.SubSamples[i]) {
+		// sample_info_size is an 8-bit field: a sample with 40 or more sub-sample entries wraps around
+		if size != byte(int(perSampleIVSize)+2+6*len(s.SubSamples[i])) {
 			return false
 		}
 	}
